@@ -9,6 +9,8 @@ over an arbitrary group `G` acting on an arbitrary additive group `V`.
 import MagpyVerif.Lemmas.RelPose
 import MagpyVerif.Lemmas.Setters
 import MagpyVerif.Lemmas.OctaCarrier
+import MagpyVerif.Lemmas.OwnSensor
+import MagpyVerif.Lemmas.KernReal
 namespace MagpyVerif.C10
 open MagpyVerif Gen Spec
 variable {G V : Type}
@@ -136,6 +138,165 @@ example : Uniform 2 (Node.mk (G := Int) (V := Int) ⟨[1, 2], [0, 0]⟩
   simp [Node.objs] at hd
   rcases hd with rfl | rfl | rfl <;> exact ⟨rfl, rfl⟩
 
+
+/-! ### histories: one refinement theorem (abstract spec in Lemmas/History.lean)
+
+Abstract state of a collection (`CollSpec`): its own pose path `frame` and, per direct child, the path of poses RELATIVE TO
+THE COLLECTION FRAME of every object of that child's subtree (any depth).  `absColl` computes it from the tree;
+`compose frame rel` gives the absolute path back.  The abstract step `specStep`: the frame follows the single-object
+semantics of C09 (`objStep`), every relative path is re-indexed by ONE index map per operation (`Op.effect`: edge
+padding `i ↦ min (i − b) (N − 1)` for move / rotate / rotate_from_*, end slicing or edge padding `psIndex` for the
+setters, `i ↦ N − 1` for `reset_path`) — i.e. the same rigid motion acts on the same indices of all descendants;
+`add` appends the new child's relative paths, `remove` drops a child's block, a rejected call changes nothing. -/
+section histories
+open RotFrom
+variable [Group G] [AddCommGroup V] [DistribMulAction G V] {α : Type} [Kern.Num α]
+
+/-- C10(f): **the abstraction commutes with every step and hence with every history** (induction over the operation
+list): for every collection tree whose members share the path length `N ≥ 1`, every finite list of operations addressed
+to the collection — move / rotate (any input form, anchor, `start ∈ ℤ ∪ {auto}`) / the six `rotate_from_*` entry points /
+`position=` / `orientation=` / `reset_path` / rejected calls / `add` of an object or collection of the current common
+length / `remove` of a child — the final tree abstracts to the fold of the abstract steps, all members again share one
+length ≥ 1, and every descendant (any depth) IS the collection's final pose path composed with its relative path. -/
+theorem history_refines_spec (sc : Scipy α G) (t : Node G V) (N : Nat) (hN : 1 ≤ N) (hU : Uniform N t)
+    (ops : List (HOp α G V)) (hadm : Admissible sc N ops) :
+    let t' := ops.foldl (Node.hstep sc) t
+    absColl t' = ops.foldl (specStep sc) (absColl t) ∧
+    Uniform (histLen sc N ops) t' ∧ 1 ≤ histLen sc N ops ∧
+    (∀ c ∈ t'.children, ∀ d ∈ c.objs, compose t'.obj (relPath t'.obj d) = d) := by
+  intro t'
+  obtain ⟨h1, h2, h3⟩ := absColl_history sc ops t N hN hU hadm
+  refine ⟨h1, h2, h3, ?_⟩
+  intro c hc d hd
+  have hmem : d ∈ t'.objs := by
+    cases ht : t' with | mk o' cs' =>
+    rw [ht] at hc
+    exact Node.mem_objs_of_child hc hd
+  have ho : t'.obj ∈ t'.objs := by cases t' with | mk o' cs' => simp [Node.objs, Node.obj]
+  exact compose_relPath _ _ _ (h2 _ ho) (h2 d hmem)
+
+/-- C10(g): one step, spelled out — what `specStep` is for an operation addressed to the collection: new frame =
+the operation applied to the collection's own object alone, relative paths re-indexed by the operation's index map -/
+theorem step_refines_spec (o : Obj G V) (cs : List (Node G V)) (N : Nat) (hN : 1 ≤ N)
+    (hU : Uniform N (Node.mk o cs)) (op : Op G V) (hroot : op.addr = []) (hwf : op.WF) :
+    absColl ((Node.mk o cs).step op) =
+      (match op.effect N with
+       | none => absColl (Node.mk o cs)
+       | some (N', σ) => ⟨objStep o op, (absColl (Node.mk o cs)).rels.map (List.map (reindex σ N'))⟩) ∧
+    Uniform (op.newLen N) ((Node.mk o cs).step op) := by
+  obtain ⟨h1, h2, _⟩ := absColl_step o cs N hN hU op hroot hwf
+  refine ⟨?_, h2⟩
+  rw [h1]
+  have ho := hU o (by simp [Node.objs])
+  simp only [specStepOp, absColl, Node.obj, ho.1]
+  cases Op.effect N op <;> rfl
+
+/-- C10(h): `reset_path` on a collection IS `position = (0,0,0)` followed by `orientation = None`; composed: the
+collection ends at the one-entry path (origin, unit rotation) and every descendant keeps exactly its LAST relative pose
+(`R_C(N−1)⁻¹ (p_d(N−1) − p_C(N−1))`, `R_C(N−1)⁻¹ R_d(N−1)`) as its absolute one-entry path -/
+theorem reset_path_spelled_out (o : Obj G V) (cs : List (Node G V)) (N : Nat) (hN : 1 ≤ N)
+    (hU : Uniform N (Node.mk o cs)) :
+    (Node.mk o cs).step (.reset []) = ((Node.mk o cs).setPosition [0]).setOrientation [1] ∧
+    absColl ((Node.mk o cs).step (.reset [])) =
+      ⟨⟨[0], [1]⟩, (absColl (Node.mk o cs)).rels.map (List.map (reindex (fun _ => N - 1) 1))⟩ ∧
+    Uniform 1 ((Node.mk o cs).step (.reset [])) ∧
+    (∀ d : Obj G V, d.pos.length = N ∧ d.ori.length = N →
+      compose (⟨[0], [1]⟩ : Obj G V) (reindex (fun _ => N - 1) 1 (relPath o d)) =
+        ⟨[(o.ori.getD (N - 1) 1)⁻¹ • (d.pos.getD (N - 1) 0 - o.pos.getD (N - 1) 0)],
+         [(o.ori.getD (N - 1) 1)⁻¹ * d.ori.getD (N - 1) 1]⟩) := by
+  obtain ⟨h1, h2⟩ := step_refines_spec o cs N hN hU (.reset []) rfl trivial
+  refine ⟨rfl, h1, h2, ?_⟩
+  intro d hd
+  have ho := hU o (by simp [Node.objs])
+  have hl := length_relPath o d N ho hd
+  have hr := getElem?_relPath o d N ho hd (N - 1)
+  have e1 : o.pos[N - 1]? = some (o.pos.getD (N - 1) 0) := by
+    rw [List.getD_eq_getElem?_getD, List.getElem?_eq_getElem (by omega)]; rfl
+  have e2 : o.ori[N - 1]? = some (o.ori.getD (N - 1) 1) := by
+    rw [List.getD_eq_getElem?_getD, List.getElem?_eq_getElem (by omega)]; rfl
+  have e3 : d.pos[N - 1]? = some (d.pos.getD (N - 1) 0) := by
+    rw [List.getD_eq_getElem?_getD, List.getElem?_eq_getElem (by omega)]; rfl
+  have e4 : d.ori[N - 1]? = some (d.ori.getD (N - 1) 1) := by
+    rw [List.getD_eq_getElem?_getD, List.getElem?_eq_getElem (by omega)]; rfl
+  simp only [relAt, e1, e2, e3, e4] at hr
+  simp [compose, reindex, List.getD_eq_getElem?_getD, hr]
+
+-- non-vacuity: an admissible history on the group ℤˣ acting on ℤ (reflections of the line): a collection with a
+-- two-step path and one child; scalar move, appended rotation about the collection itself, reset_path
+example : ∃ (t : Node ℤˣ ℤ) (ops : List (HOp ℝ ℤˣ ℤ)) (sc : Scipy ℝ ℤˣ),
+    Uniform 2 t ∧ Admissible sc 2 ops ∧ ops.length = 3 :=
+  ⟨.mk ⟨[1, 2], [1, -1]⟩ [.mk ⟨[5, 6], [1, 1]⟩ []],
+   [.base (.move [] (.scalar 3) none), .base (.rotate [] (.vector [-1]) none none), .base (.reset [])],
+   ⟨fun _ => 1, fun _ => some 1, fun _ => 1, fun _ => some 1⟩,
+   by intro d hd; simp [Node.objs] at hd; rcases hd with rfl | rfl <;> exact ⟨rfl, rfl⟩,
+   by simp [Admissible, HOp.Adm, Op.addr, Op.WF, PathIn.WF],
+   rfl⟩
+end histories
+
+/-! ### the collection's field seen by one of its own sensors -/
+section ownSensor
+open Level2
+variable [Group G] [AddCommGroup V] [DistribMulAction G V]
+
+/-- C10(i) **own_sensor_field_invariant** (C10 rigid compound + C03 covariance per path index): a collection (own object
+`o`, members sharing the path length `N`) with source objects `srcs` (each with an arbitrary local field function) and a
+sensor `ks` among its descendants (any depth) is rotated — `rotate` / any `rotate_from_*`, any input form, anchor (none =
+about the collection's own path, handed down as `parent_path`) and `start`.  At every new path index `i` the sensor reads,
+pixel by pixel, what it read before at the old index `i` is based on (`i` itself when nothing was padded in front; the
+last old index for appended entries): the field of the collection in the frame of its own sensor is unchanged.
+Hypotheses explicit: `G` a group acting on the additive group `V` by additive maps (`DistribMulAction`) — what scipy
+`Rotation` is assumed to be (DESIGN §4); no hypothesis on the field functions. -/
+theorem own_sensor_field_invariant (flipX : V → V) (o : Obj G V) (cs : List (Node G V)) (N : Nat) (hN : 1 ≤ N)
+    (hU : Uniform N (Node.mk o cs)) (rot : PathIn G) (anchor : Option (PathIn V)) (start : Option Int)
+    (hr : rot.WF) (ha : ∀ a, anchor = some a → a.WF)
+    (srcs : List (Obj G V × (V → V))) (ks : Obj G V) (pixels : List V) (pixShape : List Nat) (left : Bool)
+    (hs : ∀ a ∈ srcs, a.1 ∈ (cs.map Node.objs).flatten) (hk : ks ∈ (cs.map Node.objs).flatten)
+    (i : Nat) (hi : i < (rotWindow rot anchor N start).newLen) :
+    let F := applyRotation rot anchor start (some o.pos)
+    (∀ d ∈ (cs.map Node.objs).flatten, F d ∈ ((Node.mk o cs).rotate rot anchor start none).objs) ∧
+    reading flipX (entryOf (srcs.map fun a => (F a.1, a.2))) (sensOf (F ks) pixels pixShape left) i =
+      reading flipX (entryOf srcs) (sensOf ks pixels pixShape left)
+        (min (i - (rotWindow rot anchor N start).b) (N - 1)) := by
+  intro F
+  obtain ⟨h1, h2, h3, _⟩ := rotate_relative_pose_invariant o cs N hN hU rot anchor start hr ha
+  have hmem : ∀ d ∈ (cs.map Node.objs).flatten, d ∈ (Node.mk o cs).objs := by
+    intro d hd; simp only [Node.objs, List.mem_cons]; exact Or.inr hd
+  have ho := hU o (by simp [Node.objs])
+  have hFmem : ∀ d ∈ (cs.map Node.objs).flatten, F d ∈ ((Node.mk o cs).rotate rot anchor start none).objs := by
+    intro d hd
+    rw [h1]
+    exact List.mem_cons_of_mem _ (List.mem_map_of_mem hd)
+  refine ⟨hFmem, ?_⟩
+  have ho' := h3 _ (by rw [h1]; exact List.mem_cons_self)
+  apply reading_eq_of_relAt_eq flipX o (applyRotation rot anchor start none o) N _ i _ hi (by omega) ho ho'
+  · exact hU ks (hmem ks hk)
+  · exact h3 _ (hFmem ks hk)
+  · have : ∀ l : List (Obj G V × (V → V)), (∀ a ∈ l, a.1 ∈ (cs.map Node.objs).flatten) →
+        List.Forall₂ (fun a b => b.2 = a.2 ∧ (a.1.pos.length = N ∧ a.1.ori.length = N) ∧
+          (b.1.pos.length = (rotWindow rot anchor N start).newLen ∧ b.1.ori.length = (rotWindow rot anchor N start).newLen) ∧
+          relAt (applyRotation rot anchor start none o) b.1 i =
+            relAt o a.1 (min (i - (rotWindow rot anchor N start).b) (N - 1))) l (l.map fun a => (F a.1, a.2)) := by
+      intro l
+      induction l with
+      | nil => intro _; exact .nil
+      | cons a l ih =>
+        intro hl
+        refine .cons ⟨rfl, hU a.1 (hmem _ (hl a List.mem_cons_self)), h3 _ (hFmem _ (hl a List.mem_cons_self)), ?_⟩
+          (ih (fun b hb => hl b (List.mem_cons_of_mem _ hb)))
+        rw [h2 a.1 (hl a List.mem_cons_self) i, if_pos hi]
+    exact this srcs hs
+  · rw [h2 ks hk i, if_pos hi]
+
+-- non-vacuity: the reflection group ℤˣ on ℤ; a collection with a source (field function x ↦ 2x + 1) and a two-pixel
+-- sensor, common path length 2; all hypotheses of `own_sensor_field_invariant` hold for a rotation appended at the end
+example : ∃ (o : Obj ℤˣ ℤ) (cs : List (Node ℤˣ ℤ)) (srcs : List (Obj ℤˣ ℤ × (ℤ → ℤ))) (ks : Obj ℤˣ ℤ),
+    Uniform 2 (Node.mk o cs) ∧ (∀ a ∈ srcs, a.1 ∈ (cs.map Node.objs).flatten) ∧ ks ∈ (cs.map Node.objs).flatten ∧
+    srcs ≠ [] ∧ (PathIn.vector [(-1 : ℤˣ)]).WF ∧ 2 < (rotWindow (PathIn.vector [(-1 : ℤˣ)]) (none : Option (PathIn ℤ)) 2 none).newLen :=
+  ⟨⟨[1, 2], [1, -1]⟩, [.mk ⟨[5, 6], [1, 1]⟩ [], .mk ⟨[0, 0], [-1, 1]⟩ []], [(⟨[5, 6], [1, 1]⟩, fun x => 2 * x + 1)],
+   ⟨[0, 0], [-1, 1]⟩,
+   by intro d hd; simp [Node.objs] at hd; rcases hd with rfl | rfl | rfl <;> exact ⟨rfl, rfl⟩,
+   by simp [Node.objs], by simp [Node.objs], by simp, by simp [PathIn.WF], by decide⟩
+end ownSensor
 
 /-! ### on the carrier the driver computes with (AUDIT X1)
 
